@@ -31,7 +31,7 @@ def prop(pid, title, **kw):
 prop("C16", "Label ordering is a total order equal to CBOR's deterministic key ordering",
      kani={"quick": ["c16_"], "thorough": ["c16x_"], "timeout": {"quick": 400, "thorough": 1800},
            "jobs": 8},
-     mirsym={"jobs": _jl("c16"), "budget_s": {"quick": 900, "thorough": 5400}, "need_both": False},
+     mirsym={"jobs": _jl("c16"), "budget_s": {"quick": 900, "thorough": 3000}, "need_both": False},
      bounds={
          "quick": "integer labels: all 2^64 values per operand (pairs and triples); text labels: "
                   "all ASCII strings of length <= 3 (pairs) / <= 2 (mixed triples, registry labels), strings of <= 2 "
@@ -47,7 +47,7 @@ prop("C16", "Label ordering is a total order equal to CBOR's deterministic key o
 
 
 prop("C09", "Message structures: accepted iff they match their CDDL, slots map to fields",
-     mirsym={"jobs": _jl("c09"), "budget_s": {"quick": 900, "thorough": 5400}},
+     mirsym={"jobs": _jl("c09"), "budget_s": {"quick": 900, "thorough": 3000}},
      bounds={
          "quick": "top-level arrays of arity 0..6 with every CBOR kind in every slot; nested arrays "
                   "bounded by a total of 10 array elements per input (one nested signature/recipient); "
@@ -61,7 +61,7 @@ prop("C09", "Message structures: accepted iff they match their CDDL, slots map t
 
 prop("C15", "Integers are decoded exactly or rejected as out of range, never wrapped",
      kani={"quick": ["c15_"], "thorough": ["c15x_"], "timeout": {"quick": 400, "thorough": 1800}, "jobs": 8},
-     mirsym={"jobs": _jl("c15"), "budget_s": {"quick": 900, "thorough": 5400}},
+     mirsym={"jobs": _jl("c15"), "budget_s": {"quick": 900, "thorough": 3000}},
      bounds={
          "quick": "Kani: every CBOR integer n in [-2^64, 2^64-1] at every narrowing site reachable with a "
                   "single leaf Value (Label, the four RegisteredLabel and two RegisteredLabelWithPrivate "
@@ -89,7 +89,7 @@ prop("C17", "Registry names and integers correspond one-to-one with the IANA ass
      assumptions=["reference table /verif/iana_ref.json transcribed independently of coset's source"])
 
 prop("C08", "Header maps: accepted iff well-formed, and every field means what the wire said",
-     mirsym={"jobs": _jl("c08"), "budget_s": {"quick": 900, "thorough": 5400}},
+     mirsym={"jobs": _jl("c08"), "budget_s": {"quick": 900, "thorough": 3000}},
      bounds={
          "quick": "header maps with <= 2 entries (every kind of key and value, all integer labels and values, "
                   "text <= 2 bytes (any UTF-8), nested arrays <= 3 elements, 5 array elements in total) standalone; "
@@ -101,20 +101,20 @@ prop("C08", "Header maps: accepted iff well-formed, and every field means what t
      assumptions=[])
 
 prop("C10", "COSE_Key / COSE_KeySet: accepted iff well-formed, parameters map to fields",
-     mirsym={"jobs": _jl("c10"), "budget_s": {"quick": 900, "thorough": 5400}},
+     mirsym={"jobs": _jl("c10"), "budget_s": {"quick": 900, "thorough": 3000}},
      bounds={"quick": "key maps with <= 2 entries, key_ops arrays <= 3; key sets of <= 2 keys with 3 entries in total",
              "thorough": "key maps <= 3 entries; key sets <= 3 keys, 4 entries in total"},
      outside="larger maps / sets", assumptions=[])
 
 prop("C18", "CWT claims sets and KDF contexts decode and encode per their definitions",
-     mirsym={"jobs": _jl("c18"), "budget_s": {"quick": 900, "thorough": 5400}},
+     mirsym={"jobs": _jl("c18"), "budget_s": {"quick": 900, "thorough": 3000}},
      bounds={"quick": "claims maps <= 2 entries; COSE_KDF_Context arrays of arity 0..6 with every kind per slot, "
                       "PartyInfo / SuppPubInfo arrays of arity 0..5",
              "thorough": "claims maps <= 3 entries, KDF context arity 0..7"},
      outside="encode direction is covered by C11's check; larger maps", assumptions=[])
 
 prop("C12", "No map handled by the crate ever carries the same label twice",
-     mirsym={"jobs": _jl("c12"), "budget_s": {"quick": 900, "thorough": 5400}},
+     mirsym={"jobs": _jl("c12"), "budget_s": {"quick": 900, "thorough": 3000}},
      bounds={"quick": "decode: header / claims maps with <= 2 entries and key maps with <= 3 (every pair of "
                       "positions, every label: all integers, text <= 2 bytes), nested positions (body "
                       "protected + unprotected, signers, recipients, counter-signatures) with 2 entries in total; "
@@ -136,19 +136,19 @@ _STRUCT_ASSUME = ["the byte strings handed to the caller's closures are compared
                   "tree deterministically and injectively (RFC 8949 deterministic encoding)"]
 
 prop("C03", "To-be-signed bytes are exactly RFC 8152 Sig_structure",
-     mirsym={"jobs": _jl("c03"), "budget_s": {"quick": 900, "thorough": 5400}, "need_both": False},
+     mirsym={"jobs": _jl("c03"), "budget_s": {"quick": 900, "thorough": 3000}, "need_both": False},
      bounds=_STRUCT_BOUNDS, outside="length-class boundaries of each bstr head live inside ciborium",
      assumptions=_STRUCT_ASSUME)
 prop("C04", "To-be-MACed bytes are exactly RFC 8152 MAC_structure",
-     mirsym={"jobs": _jl("c04"), "budget_s": {"quick": 900, "thorough": 5400}, "need_both": False},
+     mirsym={"jobs": _jl("c04"), "budget_s": {"quick": 900, "thorough": 3000}, "need_both": False},
      bounds=_STRUCT_BOUNDS, outside="length-class boundaries of each bstr head live inside ciborium",
      assumptions=_STRUCT_ASSUME)
 prop("C05", "AEAD additional data is exactly RFC 8152 Enc_structure",
-     mirsym={"jobs": _jl("c05"), "budget_s": {"quick": 900, "thorough": 5400}, "need_both": False},
+     mirsym={"jobs": _jl("c05"), "budget_s": {"quick": 900, "thorough": 3000}, "need_both": False},
      bounds=_STRUCT_BOUNDS, outside="length-class boundaries of each bstr head live inside ciborium",
      assumptions=_STRUCT_ASSUME)
 prop("C06", "What is signed, MACed or encrypted is what is later verified or decrypted",
-     mirsym={"jobs": _jl("c06"), "budget_s": {"quick": 900, "thorough": 5400}, "need_both": False},
+     mirsym={"jobs": _jl("c06"), "budget_s": {"quick": 900, "thorough": 3000}, "need_both": False},
      bounds={"quick": "every sequence of <= 3 builder calls over {protected, unprotected, payload, create, "
                       "try-create (succeeding or failing creator), create-detached} for the seven message "
                       "builders, headers from a 4-element palette, all byte strings symbolic; then build, "
@@ -165,17 +165,17 @@ _RT_BOUNDS = {
     "thorough": "maps <= 3 entries (3 in total), nested arrays <= 4, depth 5, text <= 2",
 }
 prop("C02", "Protected-header bytes are kept and reused bit-for-bit, never re-encoded",
-     mirsym={"jobs": _jl("c02"), "budget_s": {"quick": 900, "thorough": 5400}},
+     mirsym={"jobs": _jl("c02"), "budget_s": {"quick": 900, "thorough": 3000}},
      bounds=_RT_BOUNDS,
      outside="'the parsed view is the same for every encoding of the same content' reduces to the parser "
              "(from_slice = from_cbor_value . parse, C13) and is not re-decided here",
      assumptions=_STRUCT_ASSUME)
 prop("C07", "Decode-encode reaches a fixed point in one step and loses nothing",
-     mirsym={"jobs": _jl("c07"), "budget_s": {"quick": 900, "thorough": 5400}},
+     mirsym={"jobs": _jl("c07"), "budget_s": {"quick": 900, "thorough": 3000}},
      bounds=_RT_BOUNDS, outside="bignum-tagged integers and indefinite lengths are parser-level (stub)",
      assumptions=["parse(enc(v)) = v for byte strings written on the same path"])
 prop("C11", "Encoding emits exactly the modelled content in the documented CBOR shape",
-     mirsym={"jobs": _jl("c11"), "budget_s": {"quick": 900, "thorough": 5400}},
+     mirsym={"jobs": _jl("c11"), "budget_s": {"quick": 900, "thorough": 3000}},
      bounds={"quick": _RT_BOUNDS["quick"] + "; values are the builder-made twins of decoded values (retained "
                       "bytes dropped) plus struct literals of Header / CoseKey / ClaimsSet with every subset of "
                       "typed fields and 1 arbitrary extra label",
@@ -183,20 +183,20 @@ prop("C11", "Encoding emits exactly the modelled content in the documented CBOR 
      outside="byte-level well-formedness of the output is ciborium's (serialiser stub)",
      assumptions=["parse(enc(v)) = v for byte strings written on the same path"])
 prop("C13", "An accepted input is exactly one CBOR item; byte and Value APIs agree",
-     mirsym={"jobs": _jl("c13"), "budget_s": {"quick": 900, "thorough": 5400}, "need_both": False},
+     mirsym={"jobs": _jl("c13"), "budget_s": {"quick": 900, "thorough": 3000}, "need_both": False},
      bounds=_RT_BOUNDS,
      outside="'every proper prefix of an accepted input is rejected' and 'a complete item followed by a suffix is "
              "parsed as that item' are facts about CBOR's prefix-freeness inside ciborium: assumed (parser stub "
              "returns an arbitrary consumed length), not decided",
      assumptions=[])
 prop("C14", "Tagged forms carry exactly the structure's registered CBOR tag",
-     mirsym={"jobs": _jl("c14"), "budget_s": {"quick": 900, "thorough": 5400}, "need_both": False},
+     mirsym={"jobs": _jl("c14"), "budget_s": {"quick": 900, "thorough": 3000}, "need_both": False},
      bounds={"quick": "all six taggable types; tag numbers: every u64; bodies as in C09's quick bounds with 1 map "
                       "entry in total; untagged decoders of all eight structure types on items that may be tags",
              "thorough": "bodies with 3 map entries in total"},
      outside="tag-head encodings (parser stub)", assumptions=[])
 prop("C20", "Canonicalising a key sorts its encoding and changes nothing else",
-     mirsym={"jobs": _jl("c20"), "budget_s": {"quick": 900, "thorough": 5400}, "need_both": False},
+     mirsym={"jobs": _jl("c20"), "budget_s": {"quick": 900, "thorough": 3000}, "need_both": False},
      bounds={"quick": "keys with every subset of {kid, alg, key_ops, base IV} and 2 extra parameters with arbitrary "
                       "labels (any i64 outside 1..5, UTF-8 text <= 2 bytes), both orderings",
              "thorough": "3 extra parameters"},
@@ -205,7 +205,7 @@ prop("C20", "Canonicalising a key sorts its encoding and changes nothing else",
                   "Label::cmp_canonical)"])
 
 prop("C01", "Untrusted bytes never crash decoding or the processing that follows it",
-     mirsym={"jobs": _jl("c01"), "budget_s": {"quick": 900, "thorough": 5400}, "need_both": False,
+     mirsym={"jobs": _jl("c01"), "budget_s": {"quick": 900, "thorough": 3000}, "need_both": False,
              "only_classes": ("panic", "depth", "nesting", "crash"), "std_config": True},
      bounds={"quick": "all byte-level entry points (from_slice, from_tagged_slice, protected bstr) of 15 types "
                       "with the nondeterministic parser stub over inputs within: arrays of the type's arity + 1, "
@@ -221,7 +221,7 @@ prop("C01", "Untrusted bytes never crash decoding or the processing that follows
 
 prop("C19", "Builders apply exactly the documented effect of each call, in any order",
      kani={"quick": ["c19_"], "thorough": ["c19x_"], "timeout": {"quick": 500, "thorough": 1800}, "jobs": 8},
-     mirsym={"jobs": _jl("c19"), "budget_s": {"quick": 900, "thorough": 5400}, "need_both": False},
+     mirsym={"jobs": _jl("c19"), "budget_s": {"quick": 900, "thorough": 3000}, "need_both": False},
      bounds={"quick": "Kani (compiled code): every sequence of 3 field-setter calls per builder (setter chosen "
                       "symbolically per step), adders at fixed positions, the five key constructors, byte vectors "
                       "of length 0..2, labels: all i64, Value arguments from a leaf palette, reserved-label guards "
